@@ -130,6 +130,19 @@ class Opaque:
         return f"<opaque {self.tag}>"
 
 
+class Sink:
+    """Absorbs attribute access and calls (timers, loggers, printers)."""
+
+    def __getattr__(self, name):
+        return self
+
+    def __call__(self, *a, **k):
+        return self
+
+    def __repr__(self):
+        return "<sink>"
+
+
 def _is_num(x):
     return isinstance(x, (int, float, Fraction, MQ, Poly, Rat, Lin)) and not isinstance(x, bool)
 
@@ -151,6 +164,7 @@ class Interp:
         self.steps = 0
         self.max_steps = max_steps
         self.trace_funcs = set()  # qualnames interpreted (evidence)
+        self.approx_literals = []  # (file, line, text) float literals with >= 10 significant digits
         self.attr_hook = None  # f(obj, attr) -> value or NotImplemented
         self.call_hook = None  # f(name, args, kwargs) -> value or NotImplemented
 
@@ -480,6 +494,9 @@ class _Frame:
     def e_Constant(self, n):
         v = n.value
         if isinstance(v, float):
+            digits = repr(v).replace("-", "").replace(".", "").lstrip("0")
+            if "e" not in digits and len(digits) >= 10:
+                self.I.approx_literals.append((self.file, n.lineno, repr(v)))
             return to_q(v)
         return v
 
@@ -778,6 +795,8 @@ class _Frame:
             return obj
         if isinstance(obj, Opaque):
             return Opaque(f"{obj.tag}.{attr}")
+        if isinstance(obj, Sink):
+            return obj
         raise self.bad(f"attribute {attr} of {type(obj).__name__}", n)
 
     def obj_attr(self, obj: XObj, attr, n):
